@@ -113,12 +113,13 @@ def c20_deep(max_bytes: int, backup_count: int, pre: int) -> bool:
     then 15 one-character writes with max_bytes 2 or 3 (a rollover at every write, or every second one); the layout
     invariant is checked after every write.
 
-    pre: 2 <= max_bytes <= 3 and 8 <= backup_count <= 12 and 0 <= pre <= 12 and pre <= backup_count
+    pre: 2 <= max_bytes <= rt.S.get('mbmax', 3) and rt.S.get('bcmin', 8) <= backup_count <= rt.S.get('bcmax', 12)
+    pre: 0 <= pre <= backup_count
     post: _
     """
-    backup_count = rt.pick(backup_count, 13)
-    pre = rt.pick(pre, 13)
-    max_bytes = rt.pick(max_bytes, 4)
+    backup_count = rt.pick(backup_count, rt.S.get('bcmax', 12) + 1)
+    pre = rt.pick(pre, rt.S.get('bcmax', 12) + 1)
+    max_bytes = rt.pick(max_bytes, rt.S.get('mbmax', 3) + 1)
     fs = fsfake.FakeFS()
     undo = fsfake.install(fs)
     try:
@@ -129,7 +130,7 @@ def c20_deep(max_bytes: int, backup_count: int, pre: int) -> bool:
         fs.windex = 0
         from circus.stream.file_stream import FileStream
         st = FileStream(filename=NAME, max_bytes=max_bytes, backup_count=backup_count)
-        payloads = ['x'] * 15
+        payloads = ['x'] * rt.S.get('writes', 15)
         ok = True
         for k, w in enumerate(payloads):
             st({'data': w, 'pid': 7, 'name': 'stdout'})
@@ -190,18 +191,23 @@ def c20_bytes(max_bytes: int, u0: int, k0: int, u1: int, k1: int, u2: int, k2: i
 TIMED_LENS = (1, 7, 20)
 
 
-def c20_timed_rotate(max_bytes: int, backup_count: int, n0: int, n1: int, n2: int) -> bool:
+def _tl():
+    return rt.S.get('lens', TIMED_LENS)
+
+
+def c20_timed_rotate(max_bytes: int, backup_count: int, n0: int, n1: int, n2: int, n3: int) -> bool:
     """
     Rotation WITH a time_format: what reaches the file is the prefixed line, so that is what must stay below max_bytes.
-    Three single-line payloads of lengths chosen from TIMED_LENS; max_bytes is any integer for which every line
+    Three (thorough: four) single-line payloads of lengths chosen from a menu; max_bytes is any integer for which every line
     (15-character prefix + payload + newline) is smaller than it.  (That the line has exactly this shape is c20_prefix.)
 
     pre: 1 <= backup_count <= 2
-    pre: 0 <= n0 < len(TIMED_LENS) and 0 <= n1 < len(TIMED_LENS) and 0 <= n2 < len(TIMED_LENS)
-    pre: max_bytes > 16 + max(TIMED_LENS[n0], TIMED_LENS[n1], TIMED_LENS[n2])
+    pre: 0 <= n0 < len(_tl()) and 0 <= n1 < len(_tl()) and 0 <= n2 < len(_tl()) and 0 <= n3 < len(_tl())
+    pre: rt.S.get('nw', 3) >= 4 or n3 == 0
+    pre: max_bytes > 16 + max(_tl()[n0], _tl()[n1], _tl()[n2], _tl()[n3] if rt.S.get('nw', 3) >= 4 else 0)
     post: _
     """
-    lens = [TIMED_LENS[rt.pick(n, len(TIMED_LENS))] for n in (n0, n1, n2)]
+    lens = [_tl()[rt.pick(n, len(_tl()))] for n in (n0, n1, n2, n3)][:rt.S.get('nw', 3)]
     payloads = ['a' * n for n in lens]
     fs, st, undo = _mk(max_bytes, backup_count, time_format='%H:%M:%S')
     try:
@@ -422,11 +428,16 @@ def plan(tier):
                      'active size': 'R[0, max_bytes)', 'len(w)': 'R[1, max_bytes)'}),
         Cond('c20_bytes', budget=120,
              bounds={'max_bytes': 'R: every integer > 9', 'writes': 'S: 4 writes of 1 or 3 repetitions of {ASCII letter, 3-byte character}'}),
-        Cond('c20_deep', budget=120,
-             bounds={'backup_count': 'S[8,12]', 'pre-existing backups': 'S[0,backup_count]', 'max_bytes': 'S{2,3}', 'writes': '15 of one character'}),
+        Cond('c20_deep', budget=120 if tier == 'quick' else 600,
+             shards=[{}] if tier == 'quick' else [{'bcmin': 1, 'bcmax': 7, 'mbmax': 4, 'writes': 20}, {'bcmin': 8, 'bcmax': 11, 'mbmax': 4, 'writes': 30},
+                                                  {'bcmin': 12, 'bcmax': 14, 'mbmax': 4, 'writes': 36}],
+             bounds={'backup_count': 'S[8,12] (thorough [1,14])', 'pre-existing backups': 'S[0,backup_count]', 'max_bytes': 'S{2,3} (thorough {2,3,4})',
+                     'writes': '15 (thorough 20-36) of one character'}),
         Cond('c20_timed_rotate', budget=120 if tier == 'quick' else 600,
+             shards=[{}] if tier == 'quick' else [{}, {'nw': 4}, {'lens': (1, 2, 7, 20, 43)}],
              bounds={'max_bytes': 'R: every integer larger than the longest line', 'backup_count': 'R[1,2]',
-                     'n0..n2': 'S: payload lengths from %r' % (TIMED_LENS,), 'time_format': '%H:%M:%S (prefix of 15 characters)'}),
+                     'n_i': 'S: 3 (thorough also 4) payload lengths from %r (thorough also (1, 2, 7, 20, 43))' % (TIMED_LENS,),
+                     'time_format': '%H:%M:%S (prefix of 15 characters)'}),
         Cond('c20_prefix', shards=([{'pid': 4321, 'plen': 2, 'mlen': 1}, {'pid': 1, 'pid2': 4321, 'plen': 2, 'mlen': 1}]
                                    if tier == 'quick' else [{'pid': 4321}, {'pid': 1}, {'pid': 1, 'pid2': 4321}, {'pid': 4321, 'pid2': 4322}]),
              budget=120 if tier == 'quick' else 600,
